@@ -23,3 +23,4 @@ run_one() {
 export -f run_one
 for p in $props; do ls /verif/benign/$p/benign-*.diff 2>/dev/null; done | xargs -P "$J" -I{} bash -c 'run_one {}'
 git -C /repo worktree prune
+rm -rf /tmp/govc-scratch
